@@ -98,20 +98,25 @@ func C17(r *vlib.Run) {
 		}
 		// the trimmer binary writes every file with the same dumper
 		if i%(n/20+1) == 0 {
-			tout := filepath.Join(sub, "trimmed")
-			res := vlib.RunCLI(sub, nil, 60*time.Second, vlib.Bin("trimmer"), "-r", "-o", tout, filepath.Join(sub, "main.thrift"))
+			tout := filepath.Join(dir, fmt.Sprintf("t%d", i)) // -o must lie outside the -r base directory
+			res := vlib.RunCLI(sub, nil, 60*time.Second, vlib.Bin("trimmer"), "-r", sub, "-o", tout, filepath.Join(sub, "main.thrift"))
 			r.Eval(1)
-			r.Sig("trimmer-binary-recursive")
-			if res.Exit == 0 {
+			switch {
+			case res.Crash != "":
+				r.Violation("C17/trimmer-crash", vlib.Trunc(res.Stderr+res.Stdout, 1200), vlib.Replay(texts))
+			case res.Exit != 0:
+				r.Violation("C17/trimmer-fails", fmt.Sprintf("trimmer -r exits %d on an accepted program: %s", res.Exit, vlib.Trunc(res.Stderr+res.Stdout, 800)), vlib.Replay(texts))
+			default:
+				r.Sig("trimmer-binary-recursive-output-checked")
 				if _, stage, err := harness.Frontend(filepath.Join(tout, "main.thrift")); err != nil {
 					r.Violation("C17/trimmer-output-rejected/"+stage, fmt.Sprintf("trimmer -r output does not pass the front end: %v", err), vlib.Replay(texts))
 				}
-			} else if res.Crash != "" {
-				r.Violation("C17/trimmer-crash", vlib.Trunc(res.Stderr+res.Stdout, 1200), vlib.Replay(texts))
 			}
+			os.RemoveAll(tout)
 		}
 		os.RemoveAll(sub)
 	}
+	r.Require("trimmer-binary-recursive-output-checked")
 	if rejected > n/50 {
 		vlib.Fatal("C17", "the parser rejected %d of %d generated programs: the workload does not reach the dumper", rejected, n)
 	}
